@@ -459,6 +459,9 @@ func (ft *fnTrans) buildReplayPlan(entryPos int, requires []string) {
 	plan.facts = ob.facts
 	plan.pureIn = len(ft.fc.Modifies) == 0
 	for k, e := range ft.fc.Ensures {
+		if e.Assumed {
+			continue
+		}
 		name := fmt.Sprintf("post.%d", k)
 		if e.Name != "" {
 			name = "post." + e.Name
